@@ -667,6 +667,15 @@ func checkWalkerBulk(r *Reporter, p *Prog) {
 						if ft.Pol && strings.Contains(k, ".pushedElements.Set(") {
 							seenBefore = true
 						}
+						// the membership write behind a small predicate helper (`firstPush := !existedBefore`):
+						// what the helper's result stands for, read on the helper's own body
+						if c, isCall := ast.Unparen(ft.Atom).(*ast.CallExpr); isCall {
+							if inner, negated, ok := boolHelperStandsFor(p, info, c); ok && strings.Contains(exprKey(inner.Fun), ".pushedElements.Set") {
+								if ft.Pol != negated {
+									seenBefore = true
+								}
+							}
+						}
 						if !ft.Pol && strings.HasSuffix(k, ".revisitElements") {
 							noRevisit = true
 						}
@@ -683,6 +692,41 @@ func checkWalkerBulk(r *Reporter, p *Prog) {
 			if _, reaches := f.reach(f.entry(), nil, func(q Point, atExit bool) bool { return !atExit && f.At(q, appends[0]) }); !reaches {
 				okPush = false
 			}
+		}
+		// every push is remembered: the element is recorded in pushedElements on every path through Push,
+		// also when revisiting is enabled (Pushed() must answer true for it afterwards)
+		// (a call in the right operand of && / || runs only when the left operand lets it)
+		conditional := map[*ast.CallExpr]bool{}
+		for _, b := range f.G.Blocks {
+			for _, nd := range b.Nodes {
+				ast.Inspect(nd, func(m ast.Node) bool {
+					if be, ok := m.(*ast.BinaryExpr); ok && (be.Op == token.LAND || be.Op == token.LOR) {
+						ast.Inspect(be.Y, func(y ast.Node) bool {
+							if c, ok := y.(*ast.CallExpr); ok {
+								conditional[c] = true
+							}
+							return true
+						})
+					}
+					return true
+				})
+			}
+		}
+		isRecord := func(n ast.Node) bool {
+			c, ok := n.(*ast.CallExpr)
+			if !ok || conditional[c] {
+				return false
+			}
+			if strings.HasSuffix(exprKey(c.Fun), ".pushedElements.Set") {
+				return true
+			}
+			inner, _, ok := boolHelperStandsFor(p, info, c)
+			return ok && strings.HasSuffix(exprKey(inner.Fun), ".pushedElements.Set")
+		}
+		if w, found := f.reach(f.entry(), &searchOpts{AvoidNode: isRecord}, func(_ Point, atExit bool) bool { return atExit }); found {
+			r.Fail("bulk/records-pushed", pkg+".Walker.Push", p.posStr(fd.Pos()), "a path through Push does not record the element in pushedElements: Pushed() reports it as never pushed", w...)
+		} else {
+			r.Pass("bulk/records-pushed", pkg+".Walker.Push", p.posStr(fd.Pos()), "the element is recorded in pushedElements on every path")
 		}
 		s, _ := srcOf(p, pkg, "Walker", "Push")
 		if okPush && nSkip >= 1 {
@@ -1187,4 +1231,50 @@ func timeCompareDirection(p *Prog, pkg string, fd *ast.FuncDecl, key string) map
 		}
 	}
 	return got
+}
+
+// boolHelperStandsFor: c calls an unexported helper of the package whose body is straight-line and
+// whose single boolean result is - possibly negated - the boolean result of one inner call
+// (`_, existed := m.Set(k, v); return !existed`): that inner call and whether it is negated.
+func boolHelperStandsFor(p *Prog, info *types.Info, c *ast.CallExpr) (*ast.CallExpr, bool, bool) {
+	fn := staticCallee(info, c)
+	if fn == nil {
+		return nil, false, false
+	}
+	hd := p.decls().byFunc[fn.Origin()]
+	if hd == nil || hd.Body == nil || hd.Name.IsExported() || p.decls().infoOf[hd] != info || len(hd.Body.List) < 1 || len(hd.Body.List) > 4 {
+		return nil, false, false
+	}
+	rs, ok := hd.Body.List[len(hd.Body.List)-1].(*ast.ReturnStmt)
+	if !ok || len(rs.Results) != 1 {
+		return nil, false, false
+	}
+	for _, st := range hd.Body.List[:len(hd.Body.List)-1] {
+		if _, isAs := st.(*ast.AssignStmt); !isAs {
+			return nil, false, false
+		}
+	}
+	res, neg := ast.Unparen(rs.Results[0]), false
+	for {
+		u, isNot := res.(*ast.UnaryExpr)
+		if !isNot || u.Op != token.NOT {
+			break
+		}
+		neg = !neg
+		res = ast.Unparen(u.X)
+	}
+	hf := newFuncCFGPlain(p, info, hd.Body, hd.Name.Name)
+	pts := hf.Find(func(m ast.Node) bool { return m == ast.Node(rs) })
+	if len(pts) != 1 {
+		return nil, false, false
+	}
+	inner, idx := hf.AtomCall(res, pts[0])
+	if inner == nil {
+		return nil, false, false
+	}
+	// the boolean result of the inner call (its last result)
+	if sig, _ := info.TypeOf(inner.Fun).(*types.Signature); sig == nil || idx != sig.Results().Len()-1 {
+		return nil, false, false
+	}
+	return inner, neg, true
 }
